@@ -376,12 +376,23 @@ def cross_package_generations(ctx, traces):
              '<xs:element name="peer" type="o:Base" minOccurs="0"/></xs:sequence></xs:extension></xs:complexContent></xs:complexType>'
              '<xs:element name="own" type="t:Own"/></xs:schema>')
     files = {"a/types.xsd": a_xsd, "b/types.xsd": b_xsd}
+    # a module that DEFINES a class and imports a class of the same name from another module (the import needs an alias)
+    a2 = ('<xs:schema xmlns:xs="http://www.w3.org/2001/XMLSchema" targetNamespace="urn:alpha" xmlns:t="urn:alpha" elementFormDefault="qualified">'
+          '<xs:complexType name="Item"><xs:sequence><xs:element name="v" type="xs:string"/></xs:sequence></xs:complexType></xs:schema>')
+    b2 = ('<xs:schema xmlns:xs="http://www.w3.org/2001/XMLSchema" targetNamespace="urn:beta" xmlns:t="urn:beta" xmlns:o="urn:alpha" elementFormDefault="qualified">'
+          '<xs:import namespace="urn:alpha" schemaLocation="alpha.xsd"/>'
+          '<xs:complexType name="Item"><xs:complexContent><xs:extension base="o:Item"><xs:sequence><xs:element name="w" type="xs:int"/></xs:sequence></xs:extension></xs:complexContent></xs:complexType>'
+          '<xs:complexType name="Container"><xs:sequence><xs:element name="remote" type="o:Item"/><xs:element name="local" type="t:Item"/></xs:sequence></xs:complexType>'
+          '<xs:element name="container" type="t:Container"/></xs:schema>')
+    same = {"alpha.xsd": a2, "beta.xsd": b2}
     k = 0
     for style in (StructureStyle.FILENAMES, StructureStyle.NAMESPACES, StructureStyle.CLUSTERS):
         for rel in (True, False):
             k += 1
             generation_case(ctx, "xsd-cross-package", files, ["a/types.xsd", "b/types.xsd"], f"{style.value}-{'relative' if rel else 'absolute'}",
                             {"structure_style": style, "relative_imports": rel}, None, traces, f"cross-{k}", must_generate=True)
+            generation_case(ctx, "xsd-same-name-import", same, ["beta.xsd"], f"{style.value}-{'relative' if rel else 'absolute'}",
+                            {"structure_style": style, "relative_imports": rel}, None, traces, f"same-{k}", must_generate=True)
 
 
 def graph_generations(ctx, traces):
